@@ -484,6 +484,11 @@ func genHistory(c *Ctx, o histOpts) (calls []*hCall, nTasks int, nontrivial bool
 			}
 			f := genForest(c, forestOpts{maxRoots: mr, maxExtra: 3, alpha: o.alpha, distinctRoots: true, maxDepth: 3, maxFan: 3})
 			doc := canonicalDoc(f)
+			if c.Chance(1, 2) {
+				// another notation (indentation unit, bullets, CRLF, blank lines): nothing learnt from
+				// one document may leak into a call on another
+				doc, _ = spell(c, f, genSpelling(c, false))
+			}
 			if c.Chance(1, 4) {
 				// a malformed document: the call's error must be its own, whatever else runs
 				parts := [][]byte{doc}
